@@ -38,8 +38,6 @@ pub fn main(args: &[String]) -> i32 {
                         v.sort();
                         tj[k] = json!(v);
                     }
-                    // core_reduces picks one production per (rule, length) non-deterministically
-                    tj["cr"] = json!([]);
                     json!({"g": g, "p": p, "gr": gr, "t": gen_digest_str(&tj.to_string())})
                 }
                 Err(e) => json!({"g": g, "p": p, "gr": "", "t": format!("ERR {}", e)}),
